@@ -5,7 +5,10 @@
 //   <move> | <events of this move> | <one token per thread> | sf mf occ sem o0 o1 o2 q0 q1 now
 // events: r<t>:<call>:<v> library call returned; S<t>:<b> / M<t> the flag of Signal / Monitor changed
 // value during a move of thread t (read from the object's memory); F<t>:<call>:<start>:<now> a timed
-// wait returns false; J<t>:<c>:<v> pthread_join of thread c returned v; X<t>:<v> thread function returned.
+// wait returns false; J<t>:<c>:<v> pthread_join of thread c returned v; X<t>:<v> thread function returned;
+// P<t> thread t, executing Monitor::set, got the monitor's mutex in this move and stands at the unlock (the critical
+// section of set() has been passed, whether or not the flag changed value) - used only to know which waiters were
+// already blocked when a set() took effect.
 #include "vh.hpp"
 #include <stdint.h>
 #define private public
@@ -31,6 +34,7 @@ static int n_thr, cfg_sig0, cfg_auto; static long long cfg_sem0;
 static bool started;
 static Signal* sig; static Monitor* mon; static Mutex* mtx; static Semaphore* sem; static Thread* th[VS_MAXT];
 static long long occ;
+static int curop[VS_MAXT];                         // library call each scenario thread is executing (Op), -1 between calls
 static char evbuf[4096]; static int evn;
 static long cur_case;
 
@@ -63,6 +67,7 @@ static unsigned scenario(void* arg)
     char cs[64]; callstr(o, cs, sizeof(cs));
     long long start = vs_now();
     long long v = 0; bool timedfalse = false;
+    curop[t] = o.kind;
     switch(o.kind) {
     case SIGSET: sig->set(); break;
     case SIGRESET: sig->reset(); break;
@@ -96,6 +101,7 @@ static unsigned scenario(void* arg)
     case CSENTER: v = ++occ; break;
     case CSLEAVE: v = --occ; break;
     }
+    curop[t] = -1;
     if(timedfalse) ev("F%d:%s:%lld:%lld", t, cs, start, vs_now());
     ev("r%d:%s:%lld", t, cs, v);
     vs_idle();
@@ -121,18 +127,20 @@ static void materialise()
   vs_reg_mutex(mtx->data, 2);
   vs_reg_sem(sem->data, 0);
   occ = 0; evn = 0;
+  for(int t = 0; t < VS_MAXT; ++t) curop[t] = -1;
   if(vs_uninit()) printf("%ld ! uninit-primitive mask=%d (pthread_mutex_init / pthread_cond_init / sem_init was not called for it)\n", cur_case, vs_uninit());
   for(int t = 0; t < VS_MAXT; ++t)
     if(t == 0 || (cfg_auto && t < n_thr)) vs_spawn(t, scenario_direct, &ctx[t]);
 }
 
-static void show(const char* mv, int mover, bool sf0, bool mf0)
+static void show(const char* mv, int mover, bool sf0, bool mf0, bool passed_set)
 {
   // flag changes seen in the objects' memory are attributed to the thread that moved
   char pre[64]; pre[0] = 0;
   bool sf = sig->signaled, mf = mon->signaled;
   if(sf != sf0) snprintf(pre, sizeof(pre), "S%d:%d", mover, sf ? 1 : 0);
   if(mf && !mf0) snprintf(pre + strlen(pre), sizeof(pre) - strlen(pre), "%sM%d", pre[0] ? " " : "", mover);
+  if(passed_set) snprintf(pre + strlen(pre), sizeof(pre) - strlen(pre), "%sP%d", pre[0] ? " " : "", mover);
   printf("%ld %s | ", cur_case, mv);
   if(pre[0] && evn) printf("%s %s", pre, evbuf); else if(pre[0]) printf("%s", pre); else if(evn) printf("%s", evbuf); else printf("-");
   evn = 0; evbuf[0] = 0;
@@ -150,13 +158,17 @@ static void do_move(const char* kind, long long a)
   char mv[64];
   snprintf(mv, sizeof(mv), "%s %lld", kind, a);
   int mover = (int)a;
+  bool is_run = !strcmp(kind, "run") && mover >= 0 && mover < VS_MAXT;
+  int i0 = -1, i1 = -1;
+  bool at_set_lock = is_run && curop[mover] == MONSET && vs_pending(mover, &i0) == 1 && i0 == 1;
   if(!strcmp(kind, "run")) vs_move_run((int)a);
   else if(!strcmp(kind, "spur")) vs_move_spur((int)a);
   else if(!strcmp(kind, "tmo")) vs_move_tmo((int)a);
   else if(!strcmp(kind, "steal")) vs_move_steal((int)a);
   else if(!strcmp(kind, "clock")) vs_move_clock(a);
   else if(!strcmp(kind, "rot")) vs_move_rot((int)a);
-  show(mv, mover, sf0, mf0);
+  bool passed_set = at_set_lock && curop[mover] == MONSET && vs_pending(mover, &i1) == 3 && i1 == 1;
+  show(mv, mover, sf0, mf0, passed_set);
 }
 
 static void drain()
